@@ -14,6 +14,7 @@ import (
 	"github.com/rminnich/go9p"
 
 	"verif/core"
+	"verif/lab/srvlab"
 	"verif/memconn"
 	"verif/wire"
 )
@@ -70,6 +71,9 @@ func c14Cases(tier string, seed int64) []core.Case {
 	for _, msize := range []uint32{1024, 8192} {
 		msize := msize
 		cases = append(cases, core.Case{ID: fmt.Sprintf("concurrent-readers/msize=%d", msize), Run: func(ctx *core.Ctx) core.Result { return c14Concurrent(ctx, msize) }})
+	}
+	for i := range cases {
+		cases[i].Run = guarded("C14", cases[i].Run)
 	}
 	return cases
 }
@@ -663,6 +667,14 @@ func c15Cases(tier string, seed int64) []core.Case {
 			}})
 		}
 	}
+	for _, dotu := range []bool{true, false} {
+		for _, g := range []int{4, 8} {
+			dotu, g := dotu, g
+			cases = append(cases, core.Case{ID: fmt.Sprintf("concurrent-listings/connections=%d/dotu=%v", g, dotu), Run: func(ctx *core.Ctx) core.Result {
+				return c15Concurrent(ctx, dotu, g)
+			}})
+		}
+	}
 	// a plain-9P2000 client of a server that also offers 9P2000.u
 	for _, n := range []int{2, 50} {
 		n := n
@@ -671,6 +683,9 @@ func c15Cases(tier string, seed int64) []core.Case {
 			defer func() { serverOffersDotu = false }()
 			return c15Run(ctx, n, false, false)
 		}})
+	}
+	for i := range cases {
+		cases[i].Run = guarded("C15", cases[i].Run)
 	}
 	return cases
 }
@@ -1095,4 +1110,137 @@ func head(a []string) []string {
 		out[i] = s
 	}
 	return out
+}
+
+// c15Concurrent: several connections list their own directories at the same time (every listing starts with a
+// snapshot of the directory built at offset 0; snapshots built side by side must not borrow from each other).
+func c15Concurrent(ctx *core.Ctx, dotu bool, G int) core.Result {
+	var res core.Result
+	e, err := newEnv(ctx, "c15c", dotu, 1<<20)
+	if err != nil {
+		res.Inconclusive = err.Error()
+		return res
+	}
+	defer e.cleanup()
+	r := core.NewRand(ctx.Seed, fmt.Sprintf("c15conc/%v/%d", dotu, G))
+	const nent = 120
+	hostNames := make([][]string, G)
+	for g := 0; g < G; g++ {
+		dir := filepath.Join(e.root, fmt.Sprintf("cd%d", g))
+		_ = os.Mkdir(dir, 0o755)
+		for i := 0; i < nent; i++ {
+			l := 6 + r.Intn(190)
+			name := (fmt.Sprintf("g%d-%d-", g, i) + strings.Repeat(string(rune('a'+(i+g)%26)), l))[:l]
+			full := filepath.Join(dir, name)
+			switch i % 7 {
+			case 0:
+				_ = os.Mkdir(full, 0o755)
+			case 1:
+				_ = os.Symlink("t", full)
+			default:
+				_ = os.WriteFile(full, []byte(name), 0o644)
+			}
+		}
+		ents, _ := os.ReadDir(dir)
+		for _, he := range ents {
+			hostNames[g] = append(hostNames[g], he.Name())
+		}
+		sort.Strings(hostNames[g])
+		if len(hostNames[g]) != nent {
+			res.Inconclusive = "c15: concurrent listing: host directory incomplete"
+			return res
+		}
+	}
+	var mu sync.Mutex
+	fail := func(sig, what string) {
+		mu.Lock()
+		if len(res.Violations) < 3 {
+			res.Violate("C15;concurrent;"+sig, fmt.Sprintf("%s [%d connections listing their own directories at once, dotu %v]", what, G, dotu), nil)
+		}
+		mu.Unlock()
+	}
+	start := make(chan struct{})
+	var wg sync.WaitGroup
+	for g := 0; g < G; g++ {
+		rc, err := e.raw(8192, dotu)
+		if err != nil {
+			res.Inconclusive = err.Error()
+			return res
+		}
+		wg.Add(1)
+		go func(g int, rc *srvlab.CConn) {
+			defer wg.Done()
+			defer rc.Hangup()
+			rr := &rawc{c: rc}
+			gr := core.NewRand(ctx.Seed, fmt.Sprintf("c15conc/%v/%d/%d", dotu, G, g))
+			<-start
+			for round := 0; round < 25; round++ {
+				fidn := uint32(100 + round)
+				if w := rr.rpc(&wire.Msg{Type: wire.Twalk, Fid: 0, Newfid: fidn, Wname: []string{fmt.Sprintf("cd%d", g)}}); w == nil || w.Type != wire.Rwalk {
+					fail("walk-dir", "cannot walk to the directory")
+					return
+				}
+				if o := rr.rpc(&wire.Msg{Type: wire.Topen, Fid: fidn, Mode: 0}); o == nil || o.Type != wire.Ropen {
+					fail("open-dir", "cannot open the directory")
+					return
+				}
+				cnt := 400 + gr.Intn(7000)
+				var names []string
+				off := uint64(0)
+				for reads := 0; ; reads++ {
+					rp := rr.rpc(&wire.Msg{Type: wire.Tread, Fid: fidn, Offset: off, Count: uint32(cnt)})
+					mu.Lock()
+					res.Evals++
+					mu.Unlock()
+					if rp == nil || rp.Type != wire.Rread {
+						fail("read-failed", fmt.Sprintf("directory read (offset %d, count %d) was not answered by Rread", off, cnt))
+						return
+					}
+					if len(rp.Data) > cnt {
+						fail("read-more-than-count", fmt.Sprintf("directory read returned %d bytes for count %d", len(rp.Data), cnt))
+						return
+					}
+					if len(rp.Data) == 0 || reads > nent+10 {
+						break
+					}
+					b := rp.Data
+					for len(b) > 0 {
+						st, used, err := wire.DecodeStat(b, dotu)
+						if err != nil {
+							fail("partial-record", fmt.Sprintf("a reply holds bytes that are not whole stat records: %v", err))
+							return
+						}
+						names = append(names, st.Name)
+						b = b[used:]
+					}
+					off += uint64(len(rp.Data))
+				}
+				sort.Strings(names)
+				if strings.Join(names, "\x00") != strings.Join(hostNames[g], "\x00") {
+					dup, missing := diffNames(names, hostNames[g])
+					foreign := 0
+					for _, n := range names {
+						if !strings.HasPrefix(n, fmt.Sprintf("g%d-", g)) {
+							foreign++
+						}
+					}
+					fail(fmt.Sprintf("listing-differs;foreign=%v", foreign > 0), fmt.Sprintf("listing %d of directory %d returned %d names for %d entries; %d belong to another directory, duplicated %v, missing %v", round, g, len(names), nent, foreign, head(dup), head(missing)))
+					return
+				}
+				rr.rpc(&wire.Msg{Type: wire.Tclunk, Fid: fidn})
+			}
+		}(g, rc)
+	}
+	close(start)
+	done := make(chan struct{})
+	go func() { wg.Wait(); close(done) }()
+	select {
+	case <-done:
+	case <-time.After(4 * W):
+		res.Inconclusive = "c15: concurrent listings did not finish"
+	}
+	res.Sig(fmt.Sprintf("concurrent-listings|%v|%d", dotu, G))
+	res.Count("concurrent_listers", int64(G))
+	res.Sample(map[string]interface{}{"scenario": "connections listing their own directories at the same time", "connections": G, "entries_each": nent, "rounds": 25})
+	return res
 }
